@@ -17,8 +17,10 @@ LastEdge(via) == IF via = <<>> THEN <<"", "">> ELSE via[Len(via)]
 UnderOperationCallbacks(v) == HasEdge(v.via, "operation", "callbacks")
 (* F-C04-2  PathItem.Validate / Operation.Validate never validate their servers *)
 UnderNestedServers(v) == HasEdge(v.via, "pathItem", "servers") \/ HasEdge(v.via, "operation", "servers")
-(* F-C04-3  MediaType.Validate never validates its encoding map (and Encoding.Validate swallows header errors) *)
-UnderEncoding(v) == HasEdge(v.via, "mediaType", "encoding")
+(* F-C04-3  Encoding.Validate swallows the errors of its headers (returns nil instead of the error); an existing    *)
+(*          test (TestEncodingJSON: headers {"someHeader": {}} must validate) pins that, so only the other half -- *)
+(*          MediaType.Validate never validated its encoding map at all -- could be repaired (0ddffc2)              *)
+UnderEncoding(v) == HasEdge(v.via, "encoding", "headers")
 (* F-C04-4  Header.Validate checks neither extra fields nor example / examples *)
 HeaderUnchecked(v) ==
    \/ v.kind = "header" /\ v.rule \in {"extra_field", "example_and_examples", "example_mismatch", "examples_mismatch"}
@@ -45,7 +47,7 @@ ParamExtensionMasked(doc, v, opts) ==
 Missed(doc, v, opts) ==
    IF UnderOperationCallbacks(v) THEN "operation_callbacks_not_validated"
    ELSE IF UnderNestedServers(v) THEN "path_item_and_operation_servers_not_validated"
-   ELSE IF UnderEncoding(v) THEN "media_type_encoding_not_validated"
+   ELSE IF UnderEncoding(v) THEN "encoding_header_errors_swallowed"
    ELSE IF HeaderUnchecked(v) THEN "header_extra_fields_and_examples_not_validated"
    ELSE IF DiscriminatorXml(v) THEN "schema_discriminator_xml_not_validated"
    ELSE IF NestedRefSibling(v) THEN "nested_schema_ref_siblings_not_checked"
